@@ -125,7 +125,8 @@ def run(ctx):
             ok = len(hs) == 1
             if ok:
                 arm = [ch.nodes[i] for i in ch.reach([hs[0].id])]
-                res = [n for n in arm if any(call_name(c) == meth and c.args and norm(c.args[0]).endswith(argend) for c in n.calls())]
+                res = [n for n in arm if any(call_name(c) == meth and c.args and norm(c.args[0]).endswith(argend) for c in n.calls())
+                       and ch.dominates([hs[0].id], n.id)]
                 rais = [n for n in arm if n.kind == "stmt" and isinstance(n.stmt, ast.Raise) and ch.dominates([hs[0].id], n.id)]
                 ok = len(res) >= 1 and ch.dominates([hs[0].id], res[0].id) and all(ch.dominates([res[0].id], x.id) for x in rais) and \
                     not [t for t, lab in ch.control_deps(res[0].id) if hs[0].id in ch._reaching_to(t.id)]
@@ -219,4 +220,11 @@ MUTANTS = [
      "old": "        def connect():\n            endpoint = self._endpointFactory(self._reactor, self.host, self.port)",
      "new": "        host, port = self.host, self.port\n\n        def connect():\n            endpoint = self._endpointFactory(self._reactor, host, port)", "expect": "C08.R5"},
 ]
-TWINS = []
+TWINS = [
+    {"id": "merge-uses-local-list", "file": "client.py",
+     "old": "            self.topic_partitions[topic] = []\n            for partition, meta in partitions.items():\n                self.topic_partitions[topic].append(partition)",
+     "new": "            self.topic_partitions[topic] = []\n            for partition, meta in sorted(partitions.items()):\n                self.topic_partitions[topic].append(partition)"},
+    {"id": "reset-both-stale-classes-separately", "file": "client.py",
+     "old": "            except (UnknownTopicOrPartitionError, NotLeaderForPartitionError):\n                log.warning(\n                    \"Clearing cached metadata for topic %r due to error=%s in %r\",\n                    resp.topic,\n                    _pretty_errno(resp.error),\n                    resp,\n                )\n                self.reset_topic_metadata(resp.topic)\n                if fail_on_error:\n                    raise",
+     "new": "            except UnknownTopicOrPartitionError:\n                self.reset_topic_metadata(resp.topic)\n                if fail_on_error:\n                    raise\n            except NotLeaderForPartitionError:\n                self.reset_topic_metadata(resp.topic)\n                if fail_on_error:\n                    raise"},
+]
